@@ -2,6 +2,7 @@ package main
 
 import (
 	"context"
+	"fmt"
 	"io"
 
 	pb "github.com/arr-ai/proto"
@@ -37,7 +38,17 @@ type arraiServer struct {
 	engine *engine.Engine
 }
 
-func (s *arraiServer) Update(stream pb.Arrai_UpdateServer) error {
+// recoverToError turns a panic raised while compiling or evaluating client-supplied text into the handler's
+// error; gRPC does not recover panics in handlers, so one would otherwise end the whole server.
+func recoverToError(err *error) {
+	if r := recover(); r != nil {
+		logrus.Errorf("Panic in arraiServer: %v", r)
+		*err = fmt.Errorf("internal error: %v", r)
+	}
+}
+
+func (s *arraiServer) Update(stream pb.Arrai_UpdateServer) (err error) {
+	defer recoverToError(&err)
 	ack := pb.UpdateAck{}
 	ctx := arraictx.InitRunCtx(context.TODO())
 
@@ -69,7 +80,8 @@ func (s *arraiServer) Update(stream pb.Arrai_UpdateServer) error {
 	}
 }
 
-func (s *arraiServer) Observe(req *pb.ObserveReq, stream pb.Arrai_ObserveServer) error {
+func (s *arraiServer) Observe(req *pb.ObserveReq, stream pb.Arrai_ObserveServer) (err error) {
+	defer recoverToError(&err)
 	ctx := arraictx.InitRunCtx(context.TODO())
 	expr, err := syntax.Compile(ctx, syntax.NoPath, req.Expr)
 	if err != nil {
